@@ -5,6 +5,7 @@ the pairs recorded in the `trace` of a successful run are, iteration by iteratio
 `floorPick` of the run's uniform stream.  (So every statement about `stepAt` is a statement about what `run` — the term
 the driver executes against the real code — updates.)
 -/
+set_option linter.unusedSectionVars false
 namespace TapkeeVerif.Spe
 variable {K : Type} [Add K] [Sub K] [Mul K] [Div K] [Zero K] [One K] [NatCast K] [IntCast K] [DecidableEq K] [LT K]
   [DecidableLT K]
